@@ -457,6 +457,13 @@ func (m *Muxer) receiver() {
 	for m.state.Load() != muxerStopped {
 		var frame *frame
 		frame, err = m.readMsg()
+		if errors.Is(err, errMalformedFrame) {
+			// A frame the peer built wrongly is dropped; it must not take the
+			// other tubes down with it.
+			m.log.Info("dropping malformed frame")
+			err = nil
+			continue
+		}
 		if err != nil {
 			return
 		}
